@@ -45,6 +45,7 @@ type Step struct {
 	N      int         `json:"n,omitempty"`
 	Expiry bool        `json:"expiry,omitempty"`
 	At     string      `json:"at,omitempty"` // KCrash: count only steps with this label prefix
+	Fork   bool        `json:"fork,omitempty"` // KPrimary: the new primary is cut off first and misses Tx; it commits a variant of Tx afterwards
 }
 
 type DBCfg struct {
@@ -137,15 +138,12 @@ func genPlan(t *rapid.T) Plan {
 		case k < 28:
 			st.Kind, st.Node, st.Expiry = KPrimary, rapid.IntRange(0, nn-1).Draw(t, "newprimary"), rapid.Bool().Draw(t, "expiry")
 			if rapid.Bool().Draw(t, "fork_at_equal_height") {
-				// the node that is going to take over misses one transaction, and commits one of
-				// its own afterwards: two histories of the same length
-				w := func(tag string) Step {
-					tx := pager.WalTx{Tx: gen.Txs(t, 1, 600)[0]}
-					tx.Rollback, tx.NoWrite = false, false
-					return Step{Kind: KWrite, DB: st.DB, Tx: tx}
-				}
-				p.Steps = append(p.Steps, Step{Kind: KQuiesce}, Step{Kind: KPause, Node: st.Node}, w("before"), st, w("after"))
-				continue
+				// the node that takes over misses one transaction and commits another one
+				// afterwards: two histories of the same length
+				st.Fork = true
+				st.Tx = pager.WalTx{Tx: gen.Txs(t, 1, 600)[0]}
+				st.Tx.Rollback, st.Tx.NoWrite = false, false
+				p.Steps = append(p.Steps, Step{Kind: KQuiesce})
 			}
 		case k < 29:
 			st.Kind = KRead
@@ -475,8 +473,27 @@ func runPlan(c *pbt.Case, p Plan) {
 					delete(paused, i)
 				}
 			}
+			name := dbName(st.DB % len(p.DBs))
+			forked := false
+			if pr := cl.Primary(); st.Fork && pr != nil && pr != target {
+				target.FC.Isolate()
+				if wr, err := pr.Write(name, st.Tx); err == nil && wr.Err == nil && wr.Committed {
+					forked = true
+				}
+				pr.CloseConns()
+			}
 			if err := cl.MakePrimary(target, st.Expiry, 20*time.Second); err != nil {
 				c.Failf("C01/primary-change", "step %d: %v", si, err)
+			}
+			target.FC.Refuse(false)
+			if forked {
+				other := st.Tx
+				other.Fill ^= 0x55
+				if wr, err := target.Write(name, other); err == nil && wr.Err == nil && wr.Committed {
+					c.Label("fork-at-equal-height")
+					commitAfter = true
+				}
+				target.CloseConns()
 			}
 			c.Label("primary-change")
 			faultSince = true
